@@ -141,8 +141,15 @@ def cases(tier, seed):
                              {"op": "ew2", "f": "add", "rev": False,
                               "src": {"k": "from_array", "shape": [2, 2], "dtype": "float64", "seed": 8, "chunks": "match"}}]}
     n = 1000 if tier == "quick" else 12000
-    for _ in range(n):
+    nrc = 360 if tier == "quick" else 3600
+    rrc = random.Random(seed * 32452843 + 3030)
+    every = n // nrc if nrc else n + 1
+    for i in range(n):
         yield P.gen_case(rng)
+        if i % every == 0 and nrc > 0:
+            # the rechunk-plan family, interleaved so that a truncated run still sees it
+            nrc -= 1
+            yield P.gen_rcplan_case(rrc, maxlen=24 if tier == "quick" else 30)
 
 
 # ---------------------------------------------------------------------------------------------
@@ -270,12 +277,18 @@ def _cmp(v, e, tol, check_dtype=True):
     return compare_arrays(v, e, check_dtype=check_dtype, **tol)
 
 
-def _opdesc(case, k, pref):
+def _opdesc(case, k, pref, extra=True):
     """Mechanism description of the k-th node of the spine (0 = the source): operation + the input features that
-    select code paths in the expression engine.  No sizes, seeds or values."""
+    select code paths in the expression engine.  No sizes, seeds or values.  extra=False leaves out the features that
+    name keywords / argument forms (used to recognise a known mechanism whatever keywords accompany it)."""
+    fx = []                 # keyword / argument-form features
     if k == 0:
-        return "source:" + case["src"]["k"]
+        src = case["src"]
+        fx = (["keywords"] if src.get("kw") else []) + (["dtype-keyword"] if src.get("dt") else []) + \
+            (["endpoint-false"] if src.get("endpoint") is False else [])
+        return "source:" + src["k"] + ("&" + "&".join(fx) if (fx and extra) else "")
     st = case["steps"][k - 1]
+    cfg = case.get("config") or {}
     op = st["op"]
     inp = pref[k - 1]
     narrow = "bool-input" if inp.dtype == bool else ("sub-64-bit-input" if inp.dtype.kind in "iuf" and inp.dtype.itemsize < 8 else "")
@@ -291,6 +304,8 @@ def _opdesc(case, k, pref):
             fl.append("0-d-operand")
         elif list(inp.shape) != list(st["src"]["shape"]):
             fl.append("broadcast")
+        if st.get("call"):
+            fx.append("ufunc-dtype-keyword")
     elif op == "slice":
         name = "slice"
         kinds = {it[0] for it in st["idx"]}
@@ -303,34 +318,69 @@ def _opdesc(case, k, pref):
                 fl.append("negative-step")
             if 0 in pref[k].shape:
                 fl.append("empty-result")
+            if "e" in kinds:
+                fx.append("Ellipsis")
     elif op == "red":
         name = "red:" + ("min-max" if st["f"] in ("min", "max") else st["f"])
         fl.append("bool-or-sub-64-bit-input" if narrow else "")
         if pref[k].ndim == 0:
             fl.append("0-d-result")
+        if st.get("dtype"):
+            fx.append("dtype-keyword")
+        if isinstance(st.get("split_every"), dict):
+            fx.append("split_every-dict")
+        elif st.get("split_every") is None and "split_every" in cfg:
+            fx.append("split_every-config")
     elif op == "rechunk":
-        ch = st["chunks"]
-        name = "rechunk:" + ("dict" if isinstance(ch, dict) else "tuple" if isinstance(ch, list) else "minus1" if ch == -1 else "int")
+        form = _rechunk_form(st["chunks"])
+        name = "rechunk:" + (form if extra else {"mixed": "tuple", "auto": "int"}.get(form, form))
         if st.get("balance"):
             fl.append("balance")
-        if _rechunk_plan_steps(case, k) > 1:
-            name, fl = "rechunk", ["multi-step-plan"]       # the form of the chunks argument does not matter then
+        fx.extend(kw for kw in ("threshold", "block_size_limit", "method") if st.get(kw) is not None)
+        fx.extend("config:" + key for key in ("array.rechunk.threshold", "array.chunk-size") if key in cfg)
+        npass, ncut = _rechunk_plan(case, k)
+        if npass > 1:
+            # the form of the chunks argument does not matter then; whether >= 2 passes cut blocks does (each of them
+            # emits split tasks)
+            name, fl, fx = "rechunk", ["multi-step-plan"], (["two-cutting-passes"] if ncut >= 2 else [])
     elif op in ("concat", "stack"):
         name = op
         if inp.ndim == 0:
             fl.append("0-d-input")
+        others = [o for o in st["others"] if o != "self"]
+        if st["axis"] is None:
+            fx.append("axis-None")         # flattening is a mechanism of its own
+        else:
+            if any(np.dtype(o["dtype"]) != inp.dtype for o in others):
+                fx.append("mixed-dtype")
+            if any(0 in o["shape"] for o in others):
+                fx.append("empty-part")
     elif op == "mb":
         name = "map_blocks"
+        if st["f"] not in P.MBF:
+            fx.append(st["f"])
+        if st.get("dt") in ("infer", "meta"):
+            fx.append("dtype-inferred" if st["dt"] == "infer" else "meta-keyword")
     else:
         name = op
-    fl = [f for f in fl if f]
+    fl = [f for f in fl + (fx if extra else []) if f]
     return name + ("&" + "&".join(fl) if fl else "")
+
+
+def _label(pair, case, k, pref, symptom):
+    """Label of a mismatch at node k.  A mechanism that is already known under its keyword-free label keeps that label
+    whatever keywords accompany it; everything else is labelled with the keyword features."""
+    for pr in (pair, "expr-vs-numpy"):     # a mechanism known against NumPy may show only against the classic engine
+        base = "%s:%s:%s" % (pr, _opdesc(case, k, pref, extra=False), symptom)
+        if base in PENDING:
+            return base
+    return "%s:%s:%s" % (pair, _opdesc(case, k, pref), symptom)
 
 
 def run_case(case, ctx):
     with warnings.catch_warnings():
         warnings.simplefilter("ignore")
-        with np.errstate(all="ignore"):
+        with np.errstate(all="ignore"), P.config_ctx(case):
             _run(case, ctx)
 
 
@@ -340,8 +390,11 @@ def _nontrivial(case):
         if "src" in st:
             srcs.append(st["src"])
         srcs.extend(o for o in st.get("others", []) if o != "self")
-        if st["op"] == "rechunk" and isinstance(st["chunks"], list) and A.has_split(A.chunks_of_desc(st["chunks"])):
-            return True
+        if st["op"] == "rechunk":
+            ch = st["chunks"]
+            ent = list(ch.values()) if isinstance(ch, dict) else ch if isinstance(ch, list) else []
+            if any(isinstance(e, list) and len(e) >= 2 for e in ent):
+                return True
     return any(A.has_split(A.chunks_of_desc(s["chunks"])) for s in srcs if s["chunks"] != "match")
 
 
@@ -350,16 +403,62 @@ def _walk_classes(ctx, expr):
         ctx.distinct("expr_classes", type(node).__name__)
 
 
-def _rechunk_plan_steps(case, k):
-    """Number of stages dask.array.rechunk.plan_rechunk chooses for the k-th node (a rechunk); 0 when unknown."""
+def _rechunk_form(ch):
+    if isinstance(ch, dict):
+        return "dict"
+    if isinstance(ch, list):
+        return "tuple" if all(isinstance(e, list) for e in ch) else "mixed"
+    return "minus1" if ch == -1 else "auto" if ch == "auto" else "int"
+
+
+def _plan_of(a, b, st):
+    """(passes, passes that cut blocks) of the plan for rechunking the lazy array a into b with the step's keywords
+    (the configuration of the case is active in the caller)."""
+    return P.plan_info(a.chunks, b.chunks, np.dtype(a.dtype).itemsize, st.get("threshold"), st.get("block_size_limit"))
+
+
+def _rechunk_plan(case, k):
+    """_plan_of for the k-th node (a rechunk) of the spine; (0, 0) when unknown."""
     import dask.array as da
-    from dask.array.rechunk import plan_rechunk
 
     try:
         a, b = P.evaluate(case, da, upto=k - 1), P.evaluate(case, da, upto=k)
-        return len(plan_rechunk(a.chunks, b.chunks, a.dtype.itemsize))
+        return _plan_of(a, b, case["steps"][k - 1])
     except Exception:  # noqa: BLE001
-        return 0
+        return (0, 0)
+
+
+def _requested_axis(entry, n, prev):
+    """Chunks an axis of length n must have after rechunk(entry); None = not determined by the request."""
+    if isinstance(entry, list):
+        return tuple(entry)
+    if entry is None:
+        return tuple(prev)
+    if entry == "auto":
+        return None
+    if entry == -1:
+        return (n,)
+    c = max(1, min(int(entry), n))
+    return tuple([c] * (n // c) + ([n % c] if n % c else []))
+
+
+def _requested_chunks_mismatch(a, b, st):
+    """The lazy result b of a.rechunk(...) has the chunks that were requested (where the request determines them)."""
+    ch = st["chunks"]
+    if st.get("balance") or ch == "auto":
+        return None
+    nd = a.ndim
+    if isinstance(ch, dict):
+        ent = {int(ax) % nd: e for ax, e in ch.items()}
+        want = [_requested_axis(ent[i], a.shape[i], a.chunks[i]) if i in ent else tuple(a.chunks[i]) for i in range(nd)]
+    elif isinstance(ch, list):
+        want = [_requested_axis(e, a.shape[i], a.chunks[i]) for i, e in enumerate(ch)]
+    else:
+        want = [_requested_axis(ch, a.shape[i], a.chunks[i]) for i in range(nd)]
+    for i, w in enumerate(want):
+        if w is not None and tuple(int(q) for q in b.chunks[i]) != tuple(int(q) for q in w):
+            return "axis %d: chunks %s, requested %s" % (i, tuple(b.chunks[i]), w)
+    return None
 
 
 def _input_meta_none(case, k):
@@ -374,19 +473,70 @@ def _input_meta_none(case, k):
         return False
 
 
+def _meta_origin(case, k):
+    """Index of the first node below k whose expression has no meta (`_meta is None`), or None.  The index is negated
+    when an earlier node has a meta with a dimension > 1 (stack's meta: the known root cause of a lost meta)."""
+    import dask.array as da
+
+    sign = 1
+    for j in range(0, k):
+        try:
+            m = P.evaluate(case, da, upto=j)._meta
+        except Exception:  # noqa: BLE001
+            return None
+        if m is None:
+            return sign * j
+        if any(d > 1 for d in getattr(m, "shape", ())):
+            sign = -1
+    return None
+
+
 def _exc_violation(ctx, case, k, pref, ex):
-    if _input_meta_none(case, k):
+    origin = _meta_origin(case, k)
+    if 0 < k <= len(case["steps"]) and case["steps"][k - 1]["op"] == "concat" and case["steps"][k - 1]["axis"] is None \
+            and isinstance(ex, AttributeError):
+        ctx.exception(ex, prefix="expr:%s" % _opdesc(case, k, pref))       # flattening is not there at all
+    elif origin is not None and origin > 0 and case["steps"][origin - 1]["op"] == "mb":
+        # one mechanism (the map_blocks result has _meta None), many failure sites in whatever operation comes later
+        import traceback
+        ctx.violation("expr:%s:result-without-meta&later-op-fails" % _opdesc(case, origin, pref), "%s: %s" % (type(ex).__name__, ex),
+                      op=_opdesc(case, k, pref), traceback="".join(traceback.format_exception(type(ex), ex, ex.__traceback__))[-2500:])
+    elif origin is not None:
         # one mechanism (an upstream expression has _meta None), many raise sites in whatever comes next
         import traceback
         ctx.violation("expr:any-op-on-input-without-meta:%s" % type(ex).__name__, "%s: %s" % (type(ex).__name__, ex),
                       op=_opdesc(case, k, pref), traceback="".join(traceback.format_exception(type(ex), ex, ex.__traceback__))[-2500:])
-    elif _opdesc(case, k, pref) == "slice&None&int":
+    elif _opdesc(case, k, pref, extra=False) == "slice&None&int":
         # one mechanism (None inserted at the shifted position -> wrongly shaped blocks), several raise sites
         import traceback
         ctx.violation("expr:slice&None&int:%s" % type(ex).__name__, "%s: %s" % (type(ex).__name__, ex),
                       traceback="".join(traceback.format_exception(type(ex), ex, ex.__traceback__))[-2500:])
     else:
         ctx.exception(ex, prefix="expr:%s" % _opdesc(case, k, pref))
+
+
+def _dtype_is_str(ctx, case, k, dx, pref):
+    """The lazy dtype of node k is what the caller passed (a str) instead of a numpy.dtype: `.dtype.itemsize` etc. fail in
+    whatever comes next (rechunk, the final rechunk of compute).  Reported at the node that introduces it."""
+    try:
+        dt = dx.dtype
+    except Exception:  # noqa: BLE001   (reported by the ordinary route)
+        return False
+    if isinstance(dt, np.dtype):
+        return False
+    origin = _meta_origin(case, k + 1)
+    if origin is not None and origin > 0 and case["steps"][origin - 1]["op"] == "mb":
+        ctx.violation("expr:%s:result-without-meta&later-op-fails" % _opdesc(case, origin, pref), "lazy .dtype is %r" % (dt,), prefix_len=k)
+        _classic_result(case)
+        return True
+    if k == 0:
+        name = "source:%s&dtype-keyword" % case["src"]["k"]
+    else:
+        st = case["steps"][k - 1]
+        name = "elemwise:array&ufunc-dtype-keyword" if st["op"] == "ew2" else st["op"] + (":" + st["f"] if "f" in st else "")
+    ctx.violation("expr-lazy:%s:dtype-is-%s-not-numpy-dtype" % (name, type(dt).__name__), "lazy .dtype is %r" % (dt,), prefix_len=k)
+    _classic_result(case)
+    return True
 
 
 def _same_chunks(c1, c2):
@@ -460,8 +610,26 @@ def _run(case, ctx):
     k = 0
     try:
         dx = P.build_source(case["src"], da)
+        if _dtype_is_str(ctx, case, 0, dx, pref):
+            return
         for k, st in enumerate(case["steps"], 1):
-            dx = P.apply_step(dx, st, da)
+            prev, dx = dx, P.apply_step(dx, st, da)
+            if _dtype_is_str(ctx, case, k, dx, pref):
+                return
+            if st["op"] == "rechunk":
+                ctx.count("rechunk_requested_chunks_checked")
+                msg = _requested_chunks_mismatch(prev, dx, st)
+                if msg:
+                    ctx.violation("expr-lazy:%s:chunks-differ-from-requested" % _opdesc(case, k, pref), msg, prefix_len=k)
+                    _classic_result(case)
+                    return
+                npass, ncut = _plan_of(prev, dx, st)
+                if npass >= 2:
+                    ctx.count("rechunk_multi_pass_plans")
+                if ncut >= 2:
+                    ctx.count("rechunk_plans_with_two_splitting_passes")
+                if case.get("family") == "rcplan" and len(case["steps"]) > 1:
+                    ctx.count("rechunk_plan_cases_with_neighbour_steps")
         if not isinstance(dx, da.Array):
             ctx.violation("expr:%s:result-not-a-dask-array" % _opdesc(case, nsteps, pref), "got %r" % (type(dx),))
             _classic_result(case)
@@ -511,7 +679,7 @@ def _run(case, ctx):
             if isinstance(msg, BaseException):
                 _exc_violation(ctx, case, kk, pref, msg)
             else:
-                ctx.violation("%s:%s:%s" % (pair, _opdesc(case, kk, pref), symptom), msg, prefix_len=kk, ops=names[:kk + 1])
+                ctx.violation(_label(pair, case, kk, pref, symptom), msg, prefix_len=kk, ops=names[:kk + 1])
         elif wrong:       # cannot happen unless evaluation is not deterministic
             ctx.violation("expr-vs-numpy:%s:%s:not-localised" % (_opdesc(case, nsteps, pref), wrong[0]), wrong[1])
         elif blockmsg and not stage_wrong:
@@ -533,7 +701,7 @@ def _run(case, ctx):
     ctx.count("compared_with_classic")
     if _classic_diff(dx, v1, c, tol):
         kk, sym, msg = _localise_classic(case, pref, tol)
-        ctx.violation("expr-vs-classic:%s:%s" % (_opdesc(case, kk, pref), sym), msg, prefix_len=kk, ops=names[:kk + 1])
+        ctx.violation(_label("expr-vs-classic", case, kk, pref, sym), msg, prefix_len=kk, ops=names[:kk + 1])
 
 
 def _localise_blocks(case):
